@@ -274,7 +274,8 @@ pub fn ncpu() -> usize {
 /// worker is shrunk by proptest and reported.
 pub fn run_lane(cfg: &RunCfg, id: &str, lane: &Lane) -> LaneReport {
     let start = Instant::now();
-    let workers = if lane.workers == 0 { ncpu() } else { lane.workers }.max(1);
+    let forced = std::env::var("VERIF_WORKERS").ok().and_then(|v| v.parse::<usize>().ok());
+    let workers = forced.unwrap_or(if lane.workers == 0 { ncpu() } else { lane.workers }).max(1);
     let workers = workers.min(lane.cases.max(1) as usize);
     let per = (lane.cases + workers as u64 - 1) / workers as u64;
     let merged = Mutex::new(LaneReport::named(lane.name));
@@ -340,7 +341,11 @@ fn run_worker(cfg: &RunCfg, id: &str, lane: &Lane, worker: usize, cases: u64) ->
     let rng = TestRng::from_seed(RngAlgorithm::ChaCha, &seed_bytes(cfg.seed, id, lane.name, worker));
     let mut runner = TestRunner::new_with_rng(config, rng);
     let strategy = (pvec(any::<u8>(), 0..=lane.max_len), pvec(any::<u8>(), 0..=lane.sched_len));
+    let journal = std::env::var("VERIF_JOURNAL").ok();
     let result = runner.run(&strategy, |(bytes, sched)| {
+        if let Some(j) = &journal {
+            let _ = std::fs::write(j, format!("{}\n{}\n{}\n", lane.name, hex(&bytes), hex(&sched)));
+        }
         let mut ctx = Ctx::default();
         let r = run_case(lane.f, &bytes, &sched, &mut ctx);
         let shrinking = *failed.borrow();
